@@ -510,9 +510,15 @@ impl Check for C10 {
         tier.pick(std::time::Duration::from_secs(200), std::time::Duration::from_secs(1500))
     }
     fn required_counters(&self, _tier: Tier) -> Vec<&'static str> {
-        vec!["capacity-decisions-judged", "evictions", "refusals", "quotes-judged", "restarts", "large-cleanups", "bursts", "identical-reputs-at-capacity"]
+        vec!["capacity-decisions-judged", "evictions", "refusals", "quotes-judged", "restarts", "large-cleanups", "bursts", "identical-reputs-at-capacity", "realnet:quotes-judged:running", "realnet:quotes-judged:restarted"]
+    }
+    fn lane_cases(&self, tier: Tier) -> u64 {
+        tier.pick(6, 48)
     }
     fn run_case(&self, cx: &mut Cx) {
+        if cx.index >= LANE_BASE {
+            return crate::realcases::c10_case(cx);
+        }
         if cx.index % 20 == 19 {
             large_cleanup_case(cx);
             return;
